@@ -556,7 +556,7 @@ func (it *Interp) execBlock(fr *frame, b, prev *ssa.BasicBlock) (res blockResult
 		}
 		if pos := ins.Pos(); pos.IsValid() {
 			pp := it.prog.Fset.Position(pos)
-			if strings.HasPrefix(pp.Filename, "/repo/") && !strings.Contains(pp.Filename, "zz_verif") {
+			if strings.HasPrefix(pp.Filename, repoDir+"/") && !strings.Contains(pp.Filename, "zz_verif") {
 				it.curPos = fmt.Sprintf("%s:%d", pp.Filename, pp.Line)
 				it.curInRepo = it.curPos
 			} else if strings.Contains(pp.Filename, "zz_verif") {
